@@ -182,10 +182,10 @@ example :
     the specified schemas of the inner cartesian product (`specCart`) and the tokens of the plain ports. For every
     arrival order the emitted schemas are, each up to the order of its entries, exactly one combination per
     complete tag of `derivedSpec` (`specE`): the composition of the two rules, the same multiset for every order.
-    NOT covered: an inner dot product, an inner cartesian product of depth ≥ 2, and the absence of an exception
-    AFTER the last specified emission (`EmRel` forces all specified schemas to be emitted). -/
+    The nested run raises nothing. NOT covered here: an inner cartesian product of depth ≥ 2. -/
 theorem nested_cart_any_order (Pi L : Nat) (plains : List Nat) (S es : List Ev) (hwf : WFNest Pi L plains S)
     (hperm : es.Perm S) :
+    (runNested (nestItems Pi plains) es).err = none ∧
     ∃ N, EmRel (runNested (nestItems Pi plains) es).out N ∧
       N.Perm (specE (plains.length + 1) (derivedSpec Pi plains S)) :=
   Comb.nested_cart_any_order S es hwf hperm
@@ -212,9 +212,10 @@ example : (specE 2 (derivedSpec 2 [2]
     every arrival order there is a stream `D` of elements (what the outer combinator is actually fed: the inner
     schemas come in dict order) which, after sorting the entries of every element by port (`canonEv M`), is a
     permutation of `derivedSpecD`, and the emitted schemas are, each up to the order of its entries, exactly one
-    combination per complete tag of `D` (`specE`). NOT covered: exceptions after the last specified emission. -/
+    combination per complete tag of `D` (`specE`); the nested run raises nothing. -/
 theorem nested_dot_any_order (Pi M : Nat) (plains : List Nat) (S es : List Ev) (hwf : WFNestD Pi M plains S)
     (hperm : es.Perm S) :
+    (runNested (nestItemsD Pi plains) es).err = none ∧
     ∃ D N, (D.map (canonEv M)).Perm (derivedSpecD Pi plains S) ∧
       EmRel (runNested (nestItemsD Pi plains) es).out N ∧ N.Perm (specE (plains.length + 1) D) :=
   Comb.nested_dot_any_order S es hwf hperm
